@@ -102,6 +102,7 @@ type c11Shared struct {
 	opaqueNRGBA *image.NRGBA
 	tileParents []draw.Image
 	tileN       int
+	convSources []image.Image
 }
 
 // c11Reject is one input of the "rejects" target: mostly inputs a loader turns down, each for a
@@ -236,6 +237,12 @@ func newC11Shared() *c11Shared {
 	for i := 0; i < 40*24; i++ {
 		sh.opaqueRGBA.Pix[4*i], sh.opaqueRGBA.Pix[4*i+1], sh.opaqueRGBA.Pix[4*i+2], sh.opaqueRGBA.Pix[4*i+3] = uint8(i*7), uint8(i*13+5), uint8(i>>2), 255
 		sh.opaqueNRGBA.Pix[4*i], sh.opaqueNRGBA.Pix[4*i+1], sh.opaqueNRGBA.Pix[4*i+2], sh.opaqueNRGBA.Pix[4*i+3] = uint8(i*11), uint8(i*3+9), uint8(i>>1), 255
+	}
+	{
+		crng := core.NewRNG(1, "c11conv")
+		for _, kind := range []string{"NRGBA", "RGBA", "NRGBA64", "RGBA64", "YCbCr420", "Gray", "Gray16", "Paletted", "CMYK", "NYCbCrA", "Alpha"} {
+			sh.convSources = append(sh.convSources, newSource(kind, image.Rect(1, 2, 18, 13), kind == "RGBA", crng))
+		}
 	}
 	sh.tileN = 8
 	for k := 0; k < 8; k++ {
@@ -473,6 +480,15 @@ func c11Step(target string, g, it int, sh *c11Shared) uint64 {
 		h = mix(h, hashImage(prism.ConvertImageToNRGBA(sh.ycc, par)))
 		h = mix(h, hashImage(prism.ConvertImageToRGBA64(sh.ycc, par)))
 		h = mix(h, hashImage(prism.ConvertImageToRGBA(prism.ConvertImageToRGBA64(sh.srcImg, 1), par)))
+		// every helper on every kind of source (translucent pixels included), with several workers
+		for k, srcK := range sh.convSources {
+			if (k+it/50+g)%2 == 0 {
+				continue
+			}
+			h = mix(h, hashImage(prism.ConvertImageToNRGBA(srcK, par+1)))
+			h = mix(h, hashImage(prism.ConvertImageToRGBA(srcK, par+1)))
+			h = mix(h, hashImage(prism.ConvertImageToRGBA64(srcK, par+1)))
+		}
 	case target == "convert-own":
 		// a shared, read-only, fully opaque image; every goroutine converts it and then writes to ITS
 		// OWN result (transforms it in place): results are the callers' own, the source stays as it is
